@@ -49,6 +49,9 @@ type DocOp struct {
 type Corpus struct {
 	Engine  string    `json:"engine"` // scorch-mem | scorch-disk | upsidedown
 	Batches [][]DocOp `json:"batches"`
+	// scorch-disk: after this many batches wait for the persister and force a merge (merged
+	// segments use zapx's 1-hit encoding for single-document terms); 0 = never
+	MergeAfter int `json:"merge_after,omitempty"`
 }
 
 type Q struct {
@@ -116,6 +119,7 @@ func buildMapping() mapping.IndexMapping {
 	dm := bleve.NewDocumentMapping()
 	f := bleve.NewTextFieldMapping()
 	f.Analyzer = "keyword"
+	f.IncludeTermVectors = false // lets zapx use the 1-hit postings encoding in merged segments
 	dm.AddFieldMappingsAt("f", f)
 	t := bleve.NewTextFieldMapping()
 	t.Analyzer = "standard"
@@ -214,7 +218,7 @@ func (b *built) build(c Corpus, seq int) error {
 		b.idx = nil
 		return err
 	}
-	for _, batch := range c.Batches {
+	for bi, batch := range c.Batches {
 		bt := b.idx.NewBatch()
 		for _, op := range batch {
 			if op.Del {
@@ -247,6 +251,9 @@ func (b *built) build(c Corpus, seq int) error {
 		if err := b.idx.Batch(bt); err != nil {
 			return err
 		}
+		if c.Engine == "scorch-disk" && c.MergeAfter > 0 && bi+1 == c.MergeAfter {
+			forceMerge(b.idx)
+		}
 	}
 	adv, err := b.idx.Advanced()
 	if err != nil {
@@ -268,6 +275,28 @@ func (b *built) build(c Corpus, seq int) error {
 		}
 	}
 	return nil
+}
+
+// forceMerge waits (bounded) until the persister has written the in-memory segments, then asks
+// the merger for a single-segment merge.
+func forceMerge(idx bleve.Index) {
+	adv, err := idx.Advanced()
+	if err != nil {
+		return
+	}
+	sc, ok := adv.(*scorch.Scorch)
+	if !ok {
+		return
+	}
+	for i := 0; i < 100; i++ {
+		if n, ok := sc.StatsMap()["TotMemorySegmentsAtRoot"].(uint64); ok && n == 0 {
+			break
+		}
+		time.Sleep(20 * time.Millisecond)
+	}
+	ctx, cancel := context.WithTimeout(context.Background(), 20*time.Second)
+	_ = sc.ForceMerge(ctx, nil)
+	cancel()
 }
 
 // ---------------------------------------------------------------- ids
@@ -840,6 +869,9 @@ func exec(in In) vh.Result {
 func genCorpus(r *vrand.R, engine string, ndocs int) Corpus {
 	c := Corpus{Engine: engine}
 	nb := r.Range(2, 6)
+	if engine == "scorch-disk" {
+		nb = r.Range(3, 6)
+	}
 	if ndocs <= 6 {
 		nb = r.Range(1, 3)
 	}
@@ -848,6 +880,15 @@ func genCorpus(r *vrand.R, engine string, ndocs int) Corpus {
 	for i := range dens {
 		dens[i] = r.Range(1, 9)
 	}
+	// the last three words are rare: each occurs in one or two documents only
+	rare := map[int][]int{}
+	for w := len(vocab) - 3; w < len(vocab); w++ {
+		dens[w] = 0
+		for k := r.Range(1, 2); k > 0; k-- {
+			d := r.Intn(ndocs)
+			rare[d] = append(rare[d], w)
+		}
+	}
 	mk := func(id int) DocOp {
 		op := DocOp{ID: id, N: float64(r.Range(0, 9))}
 		for w := range vocab {
@@ -855,6 +896,7 @@ func genCorpus(r *vrand.R, engine string, ndocs int) Corpus {
 				op.F = append(op.F, w)
 			}
 		}
+		op.F = append(op.F, rare[id]...)
 		for k := r.Range(0, 5); k > 0; k-- {
 			op.T = append(op.T, r.Intn(len(words)))
 		}
@@ -881,6 +923,9 @@ func genCorpus(r *vrand.R, engine string, ndocs int) Corpus {
 			}
 		}
 		c.Batches = append(c.Batches, batch)
+	}
+	if engine == "scorch-disk" && len(c.Batches) >= 3 {
+		c.MergeAfter = r.Range(2, len(c.Batches)-1)
 	}
 	return c
 }
